@@ -283,7 +283,7 @@ class ExecBase:
         return self.eq(st, a.v, b.v, a.t)
 
     # ---------- solver / choose ----------
-    def check(self, extra=None, st=None):
+    def check(self, extra=None, st=None, no_fallback=False):
         """incremental check first (short cap); if undecided and the path condition is
         known (st), a fresh non-incremental solver with full preprocessing decides."""
         t0 = time.time()
@@ -303,7 +303,7 @@ class ExecBase:
             m = self.solver.model()
         if extra is not None:
             self.solver.pop()
-        if r == z3.unknown and st is not None:
+        if r == z3.unknown and st is not None and not no_fallback:
             self.stats['fresh_solver'] = self.stats.get('fresh_solver', 0) + 1
             s2 = z3.Solver()
             s2.set('timeout', full_ms)
